@@ -54,15 +54,41 @@ JudgeAgree(rec) ==
             ELSE TRUE
 
 ----------------------------------------------------------------------------
-\* kind "bounds": lb[r], ed[r] (observed, internal domain), ub-only distance
+\* kind "bounds" (C09): lb[r], ed[r], ub[r] observed through several routes (internal domain),
+\* dtw = observed DTW distance of the same case.  Each bound equals the specification's value, the
+\* only_ub result is the Euclidean distance, and the sandwich holds on the observed numbers.
 JudgeBounds(rec) ==
     LET c == rec.c
         elb == LBKeogh(c)
         eed == ED(c)
         badlb == {r \in 1..Len(rec.lb) : rec.lb[r] # elb}
         baded == {r \in 1..Len(rec.ed) : rec.ed[r] # eed}
+        badub == {r \in 1..Len(rec.ub) : rec.ub[r] # eed}
+        dtw == rec.dtw
+        penfree == rec.dtw0
     IN IF badlb # {} THEN Fail(rec.id, rec.lbroutes[SetMin(badlb)])
        ELSE IF baded # {} THEN Fail(rec.id, rec.edroutes[SetMin(baded)])
+       ELSE IF badub # {} THEN Fail(rec.id, rec.ubroutes[SetMin(badub)])
+       ELSE IF dtw # Enc(Opt(c)) THEN Fail(rec.id, "dtw-reference")
+       ELSE IF \E r \in 1..Len(rec.lb) : dtw >= 0 /\ rec.lb[r] > dtw THEN Fail(rec.id, "sandwich:lb>dtw")
+       ELSE IF \E r \in 1..Len(rec.ed) : penfree >= 0 /\ rec.ed[r] >= 0 /\ penfree > rec.ed[r]
+            THEN Fail(rec.id, "sandwich:dtw>ed")
+       ELSE TRUE
+
+----------------------------------------------------------------------------
+\* kind "laws" (C10): pairs of calls with related settings; rec.rel[k] = <<name, x, y>> means the
+\* observed values must satisfy x (relation name) y; values are internal-domain integers, -1 = inf.
+Leq(x, y) == y = -1 \/ (x >= 0 /\ x <= y)
+JudgeLaws(rec) ==
+    LET bad == {q \in 1..Len(rec.rel) :
+                  LET t == rec.rel[q] IN
+                  ~ CASE t[2] = "eq" -> t[3] = t[4]
+                      [] t[2] = "le" -> Leq(t[3], t[4])
+                      [] t[2] = "zero" -> t[3] = 0
+                      [] t[2] = "nonneg" -> t[3] >= 0 \/ t[3] = -1}
+        e == Enc(Opt(rec.c))
+    IN IF bad # {} THEN Fail(rec.id, rec.rel[SetMin(bad)][1])
+       ELSE IF rec.base # e THEN Fail(rec.id, "base-differs-from-spec")
        ELSE TRUE
 
 ----------------------------------------------------------------------------
@@ -169,6 +195,7 @@ JudgeRec(rec) ==
     CASE rec.kind = "dist" -> JudgeDist(rec)
       [] rec.kind = "agree" -> JudgeAgree(rec)
       [] rec.kind = "bounds" -> JudgeBounds(rec)
+      [] rec.kind = "laws" -> JudgeLaws(rec)
       [] rec.kind = "wps" -> JudgeWps(rec)
       [] rec.kind = "path" -> JudgePath(rec)
 
